@@ -1,5 +1,7 @@
 import Driver.Core
 import Driver.RW
+import Driver.Gen
+import Driver.EnumD
 /-! One request per line on stdin, one canonical answer per line on stdout. -/
 open Driver EoVerif
 
@@ -7,6 +9,8 @@ structure DState where
   sqr : Seq.Sequencer := Seq.Sequencer.new 0
   w : Writer := {}
   rs : Readers := {}
+  gen : GenState := {}
+  enums : Enums := {}
 
 def step (st : DState) (line : String) : DState × String :=
   match (line.trimAscii.toString.splitOn " ").filter (· ≠ "") with
@@ -34,6 +38,12 @@ def step (st : DState) (line : String) : DState × String :=
     let (rs', out) := handleReader st.rs rest
     ({ st with rs := rs' }, out)
   | "cp1252" :: rest => (st, handleCp rest)
+  | "enum" :: rest =>
+    let (e', out) := handleEnum st.enums rest
+    ({ st with enums := e' }, out)
+  | "gen" :: rest =>
+    let (g', out) := handleGen st.gen rest
+    ({ st with gen := g' }, out)
   | ["ping"] => (st, "pong")
   | _ => (st, "bad-op")
 
